@@ -45,6 +45,10 @@ func c14InitMaps() {
 	}
 	all = append(all, zoo.NMap{}, zoo.PlainMap{}, &zoo.StrCarrier{}, &zoo.BinCarrier{}, &zoo.TimeCarrier{}, &zoo.IntFields{}, &zoo.IntLists{})
 	tm, _ := hessian.ExtractTypeNameMap(all)
+	// recursive container types under short wire names, and a list type for ref bombs
+	tm["[tree"] = reflect.TypeOf(zoo.Tree{})
+	tm["j"] = reflect.TypeOf(zoo.JMap{})
+	tm["[[int"] = reflect.TypeOf([][]int32{})
 	c14Maps[0] = tm
 	c14Maps[1] = map[string]reflect.Type{}
 	// wrong: every name mapped to the type of the next name (classes to other
